@@ -164,6 +164,12 @@ SPEC = [
     dict(name="fcn", src=("abstract.py", "OptimizationAbstract._fcn"), params={"x": "coords"}, ret="objval", selfr={"_task": ("T", "tasksem")}),
     dict(name="init_agent", src=("abstract.py", "OptimizationAbstract._init_agent"), params={"position": O("raws")}, ret="agent", selfr={"_task": ("T", "tasksem")},
          extra=[("empty_solution", "List Raw"), ("calculate_fitness", "Num → Dir → Num")]),
+    dict(name="generate_agents", src=("abstract.py", "OptimizationAbstract._generate_agents"), params={"n_agents": "int"}, ret=L("agent"), pool=True, draws=True,
+         selfr={"_mode": ("self_mode", "mode"), "_workers": ("self_workers", "int"), "_task": ("T", "tasksem")},
+         extra=[("calculate_fitness", "Num → Dir → Num")]),
+    dict(name="init_population", src=("abstract.py", "OptimizationAbstract._init_population"), params={}, ret="unit", pool=True, draws=True,
+         selfr={"_mode": ("self_mode", "mode"), "_workers": ("self_workers", "int"), "_task": ("T", "tasksem"), "_config.population_size": ("population_size", "int")},
+         selfw={"_population": ("self_population", L("agent"))}, extra=[("calculate_fitness", "Num → Dir → Num")]),
     dict(name="contmulti_get_bounds", src=("models.py", "ContinuousMultiVariable.get_bounds"), params={}, ret=T(L("num"), L("num")),
          selfr={"lower_bounds": ("lower_bounds", L("num")), "upper_bounds": ("upper_bounds", L("num"))}),
     dict(name="contmulti_children", src=("models.py", "ContinuousMultiVariable.__init__"), params={}, ret=L("var"), init_children=True,
@@ -967,6 +973,10 @@ class Fn:
                         if aty != "coords":
                             self.err(n, f"objective_function of a {aty}")
                         return f"({rt}.F {atom(a)})", "objval"
+                    if f.attr == "empty_solution" and not n.args and self.spec.get("draws"):
+                        # the next element of the random stream; the counter of draws is the function's state
+                        self.need_eff(n)
+                        return "(← Py.nextDraw draw)", "raws"
                     if f.attr == "empty_solution" and not n.args:
                         if "empty_solution" not in [e[0] for e in self.spec.get("extra", [])]:
                             self.err(n, "empty_solution not declared")
@@ -1063,7 +1073,7 @@ class Fn:
             elif isinstance(pat, tuple) and isinstance(ty, tuple) and pat[0] == ty[0] and pat[0] in ("list", "opt"):
                 unify(pat[1], ty[1])
         # implicit state / type parameters first, in the callee's declaration order
-        args += self.implicit_args(callee_spec, n)
+        args += self.implicit_args(callee_spec, n, env)
         for p in params:
             pty = callee_spec["params"][p]
             if pty == "result":
@@ -1133,16 +1143,9 @@ class Fn:
                 self.err(n, f"keyword {k} omitted and the constructor has no default for it")
         return f"({cs['name']} " + " ".join(args) + ")", cs["ret"]
 
-    def implicit_args(self, cs, node):
+    def implicit_args(self, cs, node, env=None):
+        # in the order of the callee's header: arithmetic, opaque functions, constants, pool schedule, receiver, extras, random stream, then the instance attributes
         out = []
-        if cs.get("selfobj"):
-            if not getattr(self, "receiver", None):
-                self.err(node, "method of an object called without a receiver")
-            out.append(self.receiver)
-        for nm, _ in cs.get("extra", []):
-            if nm not in [e[0] for e in self.spec.get("extra", [])]:
-                self.err(node, f"callee needs {nm}, which the caller does not have")
-            out.append(nm)
         if cs.get("R"):
             out.append("ar")
         for _, (pname, _, _) in cs.get("opaque", {}).items():
@@ -1151,6 +1154,32 @@ class Fn:
             out.append(c)
         if cs.get("pool"):
             out.append("σ")
+        if cs.get("selfobj"):
+            if not getattr(self, "receiver", None):
+                self.err(node, "method of an object called without a receiver")
+            out.append(self.receiver)
+        for nm, _ in cs.get("extra", []):
+            if nm == "empty_solution" and self.spec.get("draws"):
+                # the callee reads `self._task.empty_solution()` only when its `position` is None: a call without a position draws (and advances the stream),
+                # a call with a position that cannot be None is handed what the next draw would be and does not advance it
+                pos = [a for a in node.args] + [kw.value for kw in node.keywords if kw.arg == "position"]
+                if not pos:
+                    self.need_eff(node)
+                    out.append("(← Py.nextDraw draw)")
+                else:
+                    _, pty = self.E(pos[0], env or {})
+                    if pty != "raws":
+                        self.err(node, f"position argument of type {pty}: whether the callee draws is not static")
+                    self.need_eff(node)
+                    out.append("(← Py.peekDraw draw)")
+                continue
+            if nm not in [e[0] for e in self.spec.get("extra", [])]:
+                self.err(node, f"callee needs {nm}, which the caller does not have")
+            out.append(nm)
+        if cs.get("draws"):
+            if not self.spec.get("draws"):
+                self.err(node, "callee draws from the random stream, the caller is not declared to")
+            out.append("draw")
         for path, (pname, pty) in list(cs.get("selfr", {}).items()) + list(cs.get("selfw", {}).items()):
             if self.selfrec:
                 if path not in SELF_FIELDS:
@@ -1701,6 +1730,8 @@ class Fn:
             header.append(f"({sp['selfobj'][0]} : {lean_type(sp['selfobj'][1])})")
         for nm, lty in sp.get("extra", []):
             header.append(f"({nm} : {lty})")
+        if sp.get("draws"):
+            header.append("(draw : Nat → List Raw)")
         self.sig_header = " ".join(header)          # type / opaque parameters shared with a loop definition
         for path, (pname, ty) in list(self.selfr.items()) + list(self.selfw.items()):
             header.append(f"({pname} : {lean_type(ty)})")
@@ -1743,7 +1774,7 @@ class Fn:
             if sp["ret"] != "unit":
                 raise Untranslatable(fn, "control can reach the end of a function that returns a value")
             self.lines.append(f"  return {self.ret_term(None)}")
-        head = f"def {sp['name']} " + " ".join(header) + " : " + (f"Except Err {atom_type(rty)}" if self.eff else rty) + " := " + ("do" if self.eff else "Id.run do")
+        head = f"def {sp['name']} " + " ".join(header) + " : " + (f"StateT Nat (Except Err) {atom_type(rty)}" if sp.get("draws") else f"Except Err {atom_type(rty)}" if self.eff else rty) + " := " + ("do" if self.eff else "Id.run do")
         doc = f"/-- `{sp['src'][0]}:{sp['src'][1]}` (line {fn.lineno}) -/"
         pre = "".join(d + "\n" for d in nested_defs) + "".join(d + "\n" for d in self.loop_defs)
         return pre + doc + "\n" + head + "\n" + "\n".join(self.lines) + "\n"
